@@ -1081,8 +1081,8 @@ namespace adept {
       Index new_dim = std::min(dims[0]+offdiag, dims[1]);
       Array<1,Type,E::is_active> v(new_dim);
       for (int j = 0; j < new_dim; ++j) {
-	i[0] = j;
-	i[1] = j+offdiag;
+	i[0] = j-offdiag;
+	i[1] = j;
 	arg.set_location(i, ind);
 	v(j) = arg.next_value(ind);
       }
@@ -1121,8 +1121,8 @@ namespace adept {
       Array<1,Type,E::is_active> v(new_dim);
       ADEPT_ACTIVE_STACK->check_space(E::n_active * new_dim);
       for (int j = 0; j < new_dim; ++j) {
-	i[0] = j;
-	i[1] = j+offdiag;
+	i[0] = j-offdiag;
+	i[1] = j;
 	arg.set_location(i, ind);
 	v.data()[j] = arg.next_value_and_gradient(*ADEPT_ACTIVE_STACK,ind);
 	ADEPT_ACTIVE_STACK->push_lhs(v.gradient_index()+j);
